@@ -2,6 +2,8 @@
 from .common import *
 from . import wakers
 
+CRATES = (IM, UT,)
+
 META = {
     "explanation": (
         "Static typestate analysis on MIR of every poll function the library provides on top of an ObservableVector (Head, Tail, Skip, the two "
@@ -30,4 +32,4 @@ def run(ctx):
         n += 1
         wakers.check_poll_fn(ctx, "R14.1", f, sites)
         wakers.check_rearm(ctx, "R14.3", f, sites)
-    ctx.floor("R14.1", n, 8 if ctx.config == "default" else 10)
+    ctx.floor("R14.1", n, 8 if not ctx.has_async else 10)
